@@ -189,6 +189,8 @@ def c08(tier):
     c = new_check("C08", tier)
     for model, cfg in cfgs("mc/MC_Equiv", tier, [""]):
         mc_replay(c, model, cfg, "cmp/partial_cmp/hash of all pairs, owned vs borrowed, Borrow views, rank certificate of the order")
+    for model, cfg in cfgs("mc/MC_DataUrl", tier, [""]):
+        mc_replay(c, model, cfg, "Borrow<DataUrl> for DataUrlBuf: hash, ==, cmp and set lookups of the owned value against its borrowed view")
     return c.finish(rule="same groups as C07; order laws decided on the full observed matrix through a rank certificate "
                          "(total preorder iff ord[i][j] = sign(rank i - rank j) for all pairs)",
                     assumptions=TRUST + ["std::collections::hash_map::DefaultHasher with fixed keys"])
